@@ -225,15 +225,19 @@ class Violation:
 
 
 def load_findings():
+    """known_findings.d/<ID>.json are the source (one file per property, edited by hand, never at
+    run time); known_findings.json is their concatenation (bin/mkfindings) for readers and is
+    only consulted when the directory is absent."""
     res = []
-    p = os.path.join(VERIF, "known_findings.json")
-    if os.path.exists(p):
-        res += json.load(open(p))
     d = os.path.join(VERIF, "known_findings.d")
     if os.path.isdir(d):
         for n in sorted(os.listdir(d)):
             if n.endswith(".json"):
                 res += json.load(open(os.path.join(d, n)))
+        return res
+    p = os.path.join(VERIF, "known_findings.json")
+    if os.path.exists(p):
+        res += json.load(open(p))
     return res
 
 
